@@ -32,7 +32,6 @@ def bodyName (x : String) : Bool :=
 
 structure InvKitB (env : Env W HS) (P : St W HS → Prop) (Q : Val → Prop) (N : String → Prop) : Prop where
   nUser : ∀ x, isUser x = true → N x
-  nValue : N "#value"
   int : ∀ n, Q (.int n)
   str : ∀ s, Q (.str s)
   noneV : Q .noneV
@@ -76,6 +75,12 @@ structure InvKitB (env : Env W HS) (P : St W HS → Prop) (Q : Val → Prop) (N 
   pushCur : ∀ st e, P st → Q e → P { st with cur := e :: st.cur }
   popCur : ∀ st, P st → P { st with cur := st.cur.tail }
   curQ : ∀ st e, P st → e ∈ st.cur → Q e
+
+/-- the names only statements issue: the loop markers and the value of `return` -/
+structure StmtNames (N : String → Prop) : Prop where
+  loop : ∀ x, N ("#loop_" ++ x)
+  endloop : ∀ x, N ("#endloop_" ++ x)
+  value : N "#value"
 
 /-- the three steps of a `yield` expression: report the value, suspend, report what was sent -/
 def yieldSeq (env : Env W HS) (x : Val) : M W HS Val :=
@@ -388,9 +393,10 @@ theorem invTL {env : Env W HS} {P : St W HS → Prop} {Q : Val → Prop} {N : St
         invTL kit ts h.2 vs (fun u hu => hi u (by simp [hu]))
 end
 
-theorem bodyName_marks (x : String) :
-    (fun y => bodyName y = true) ("#loop_" ++ x) ∧ (fun y => bodyName y = true) ("#endloop_" ++ x) :=
-  ⟨bodyName_loop x, bodyName_endloop x⟩
+theorem bodyName_marks : StmtNames (fun y => bodyName y = true) where
+  loop := bodyName_loop
+  endloop := bodyName_endloop
+  value := by decide
 
 end Ptera.Sem
 
@@ -629,7 +635,7 @@ theorem invM_forM_setLoc {env : Env W HS} {P : St W HS → Prop} {Q : Val → Pr
 
 mutual
 theorem invS {env : Env W HS} {P : St W HS → Prop} {Q : Val → Prop} {N : String → Prop} (kit : InvKitN env P Q N)
-    (hL : ∀ x, N ("#loop_" ++ x) ∧ N ("#endloop_" ++ x)) (fuel : Nat) :
+    (hL : StmtNames N) (fuel : Nat) :
     (s : Stmt) → coreS s = true → InvX P Q (execS env fuel s)
   | .assign ts v, h => by
     simp only [coreS, Bool.and_eq_true] at h
@@ -702,12 +708,12 @@ theorem invS {env : Env W HS} {P : St W HS → Prop} {Q : Val → Prop} {N : Str
     cases v with
     | none =>
       simp only [pure_bind_M]
-      exact invX_stepM (invM_hook kit "#value" kit.nValue none .noneV kit.noneV false .noneV) fun r hr => invX_done _ hr
+      exact invX_stepM (invM_hook kit "#value" hL.value none .noneV kit.noneV false .noneV) fun r hr => invX_done _ hr
     | some e =>
       simp only
       refine invX_stepM (QA := Q) ?_ fun r hr => invX_done _ hr
       exact invM_bind (invE kit e (by simpa [coreOptE] using h)) fun x hx =>
-        invM_hook kit "#value" kit.nValue none x hx false .noneV
+        invM_hook kit "#value" hL.value none x hx false .noneV
   | .pass, _ => by simp only [execS]; exact invX_done _ trivial
   | .brk, _ => by simp only [execS]; exact invX_done _ trivial
   | .cont, _ => by simp only [execS]; exact invX_done _ trivial
@@ -751,11 +757,11 @@ theorem invS {env : Env W HS} {P : St W HS → Prop} {Q : Val → Prop} {N : Str
         exact invM_bind (invM_hookMetas kit none _ (fun x hx => by
             simp only [List.mem_map] at hx
             obtain ⟨y, _, rfl⟩ := hx
-            exact (hL y).1)) fun _ _ => invM_postBind kit _ (coreT_names_user t h.1.1.1)
+            exact hL.loop y)) fun _ _ => invM_postBind kit _ (coreT_names_user t h.1.1.1)
       · exact invX_stepM (invM_hookMetas kit none _ (fun x hx => by
             simp only [List.mem_map] at hx
             obtain ⟨y, _, rfl⟩ := hx
-            exact (hL y).2)) fun _ _ => invX_done _ trivial
+            exact hL.endloop y)) fun _ _ => invX_done _ trivial
   | .try b hds o f, h => by
     simp only [coreS, Bool.and_eq_true] at h
     simp only [execS]
@@ -828,7 +834,7 @@ theorem invS {env : Env W HS} {P : St W HS → Prop} {Q : Val → Prop} {N : Str
   | .nonloc _, h => by simp [coreS] at h
   | .opaque .., h => by simp [coreS] at h
 theorem invB {env : Env W HS} {P : St W HS → Prop} {Q : Val → Prop} {N : String → Prop} (kit : InvKitN env P Q N)
-    (hL : ∀ x, N ("#loop_" ++ x) ∧ N ("#endloop_" ++ x)) (fuel : Nat) :
+    (hL : StmtNames N) (fuel : Nat) :
     (ss : List Stmt) → coreB ss = true → InvX P Q (execB env fuel ss)
   | [], _ => by simp only [execB_nil]; exact invX_done _ trivial
   | s :: ss, h => by
@@ -836,7 +842,7 @@ theorem invB {env : Env W HS} {P : St W HS → Prop} {Q : Val → Prop} {N : Str
     simp only [execB_cons]
     exact invX_seqX (invS kit hL fuel s h.1) (invB kit hL fuel ss h.2)
 theorem invHL {env : Env W HS} {P : St W HS → Prop} {Q : Val → Prop} {N : String → Prop} (kit : InvKitN env P Q N)
-    (hL : ∀ x, N ("#loop_" ++ x) ∧ N ("#endloop_" ++ x)) (fuel : Nat) :
+    (hL : StmtNames N) (fuel : Nat) :
     (hds : List Handler) → coreHL hds = true → ∀ e, Q e → InvX P Q (execHL env fuel hds e)
   | [], _, e, he => by simp only [execHL]; exact invX_done _ (Or.inr he)
   | .mk typ name body :: hds, h, e, he => by
@@ -957,21 +963,56 @@ theorem invM_paramHooks {env : Env W HS} {P : St W HS → Prop} {Q : Val → Pro
         invM_bind (invM_hook kit p.name (kit.nUser _ hu) p.ann v hv false .noneV) fun r hr =>
           invM_setLoc kit p.name r hr
 
-/-- the part of an activation between `#enter` and `#error` / `#exit`: globals, parameters, body -/
-def runInner (env : Env W HS) (fuel : Nat) (f : FunDef) : Exec W HS :=
-  seqX (stepM (do fetchRefs env (sortNames (collect f).external); paramHooks env f.params) fun _ => done .normal)
-    (execB env fuel (bodyWithReturn f))
+theorem invM_freeHook {env : Env W HS} {P : St W HS → Prop} {Q : Val → Prop} {N : String → Prop} (kit : InvKitN env P Q N)
+    (x : String) (hx : isUser x = true) : InvM P Q (fun _ => True) (freeHook env x) := by
+  unfold freeHook
+  cases env.hk with
+  | none => exact invM_pure _ _ trivial
+  | some cfg =>
+    simp only
+    refine invM_bind (invM_lookup kit x hx) fun v hv => ?_
+    split
+    · exact invM_bind (QA := Q) (fun st hp => kit.interact st x .noneV _ v false hp (kit.nUser _ hx) (Or.inr hv))
+        fun _ _ => invM_pure _ _ trivial
+    · exact invM_pure _ _ trivial
 
-theorem inv_runInner {env : Env W HS} {P : St W HS → Prop} {Q : Val → Prop} {N : String → Prop} (kit : InvKitN env P Q N)
-    (hL : ∀ x, N ("#loop_" ++ x) ∧ N ("#endloop_" ++ x)) (fuel : Nat)
+theorem invM_freeHooks {env : Env W HS} {P : St W HS → Prop} {Q : Val → Prop} {N : String → Prop} (kit : InvKitN env P Q N) :
+    (xs : List String) → (∀ x ∈ xs, isUser x = true) → InvM P Q (fun _ => True) (freeHooks env xs)
+  | [], _ => by simp only [freeHooks]; exact invM_pure _ _ trivial
+  | x :: xs, h => by
+    simp only [freeHooks]
+    exact invM_bind (invM_freeHook kit x (h x (by simp))) fun _ _ =>
+      invM_freeHooks kit xs fun y hy => h y (by simp [hy])
+
+/-- what an activation does before its body: instrumented globals, closure variables, parameters -/
+def prologue (env : Env W HS) (f : FunDef) : M W HS Unit := do
+  fetchRefs env (sortNames (collect f).external)
+  freeHooks env (sortNames (collect f).free)
+  paramHooks env f.params
+
+theorem invM_prologue {env : Env W HS} {P : St W HS → Prop} {Q : Val → Prop} {N : String → Prop} (kit : InvKitN env P Q N)
     (f : FunDef) (hf : coreF f = true) (hglob : ∀ x v, isUser x = true → env.host.glob x = some v → Q v) :
-    InvX P Q (runInner env fuel f) := by
+    InvM P Q (fun _ => True) (prologue env f) := by
   simp only [coreF, Bool.and_eq_true, List.all_eq_true] at hf
-  obtain ⟨⟨⟨⟨⟨hbody, hau⟩, heu⟩, _⟩, _⟩, hparam⟩ := hf
-  unfold runInner
-  refine invX_seqX (invX_stepM (QA := fun _ => True) ?_ fun _ _ => invX_done _ trivial) (invB kit hL fuel _ hbody)
+  obtain ⟨⟨⟨⟨⟨_, hau⟩, heu⟩, hfu⟩, _⟩, hparam⟩ := hf
+  unfold prologue
   exact invM_bind (invM_fetchRefs kit _ fun x hx =>
       ⟨heu x ((mem_sortNames x _).1 hx), fun v hv => hglob x v (heu x ((mem_sortNames x _).1 hx)) hv⟩) fun _ _ =>
+    invM_bind (invM_freeHooks kit _ fun x hx => hfu x (by simpa [collect] using (mem_sortNames x _).1 hx)) fun _ _ =>
     invM_paramHooks kit f.params fun p hp => hau p.name (List.contains_iff_mem.1 (hparam p hp))
+
+/-- the part of an activation between `#enter` and `#error` / `#exit`: globals, closure variables, parameters, body -/
+def runInner (env : Env W HS) (fuel : Nat) (f : FunDef) : Exec W HS :=
+  seqX (stepM (prologue env f) fun _ => done .normal) (execB env fuel (bodyWithReturn f))
+
+theorem inv_runInner {env : Env W HS} {P : St W HS → Prop} {Q : Val → Prop} {N : String → Prop} (kit : InvKitN env P Q N)
+    (hL : StmtNames N) (fuel : Nat)
+    (f : FunDef) (hf : coreF f = true) (hglob : ∀ x v, isUser x = true → env.host.glob x = some v → Q v) :
+    InvX P Q (runInner env fuel f) := by
+  have hbody : coreB (bodyWithReturn f) = true := by
+    simp only [coreF, Bool.and_eq_true] at hf
+    exact hf.1.1.1.1.1
+  unfold runInner
+  exact invX_seqX (invX_stepM (invM_prologue kit f hf hglob) fun _ _ => invX_done _ trivial) (invB kit hL fuel _ hbody)
 
 end Ptera.Sem
